@@ -73,7 +73,7 @@ impl Handler for NoRegexSpacesHandler {
   fn new_expr(&mut self, new_expr: &NewExpr, ctx: &mut Context) {
     if let Expr::Ident(ident) = new_expr.callee {
       if let Some(args) = &new_expr.args {
-        if let Some(regex) = extract_regex(ctx.scope(), ident, args) {
+        if let Some(regex) = extract_regex(ctx, ident, args) {
           check_regex(regex.as_str(), new_expr.range(), ctx);
         }
       }
@@ -82,7 +82,7 @@ impl Handler for NoRegexSpacesHandler {
 
   fn call_expr(&mut self, call_expr: &CallExpr, ctx: &mut Context) {
     if let Callee::Expr(Expr::Ident(ident)) = &call_expr.callee {
-      if let Some(regex) = extract_regex(ctx.scope(), ident, call_expr.args) {
+      if let Some(regex) = extract_regex(ctx, ident, call_expr.args) {
         check_regex(regex.as_str(), call_expr.range(), ctx);
       }
     }
